@@ -37,6 +37,13 @@ template<int L, class T> static void run(Rng& g, int n) {
 		}
 		if (kind == 0 || kind >= 3) {
 			count("distance" + sfx); LD d2 = 0; for (int i = 0; i < L; ++i) d2 += ((LD)a[i] - b[i]) * ((LD)a[i] - b[i]); LD got = glm::distance(a, b); if (!(fabsl(got - sqrtl(d2)) <= 16 * eps * (sqrtl(d2) + sqrtl(aa) + sqrtl(bb)))) fail("distance" + sfx, "value", vs(a) + "," + vs(b), str((double)sqrtl(d2)), str((double)got));
+			// distance / distance2 relative to the distance itself (the differences of nearby components are exact, so |a - b| keeps full relative accuracy however far
+			// from the origin the points are): the pair as drawn, and b moved to within a few units in the last place / a small fraction of a
+			for (int near = 0; near < 3; ++near) { glm::vec<L, T> b2 = b; if (near == 1) for (int i = 0; i < L; ++i) { b2[i] = a[i]; int st = g.range(-3, 3); for (int k = 0; k < (st < 0 ? -st : st); ++k) b2[i] = std::nextafter(b2[i], st < 0 ? (T)-1e30 : (T)1e30); }
+			  if (near == 2) { LD f = powl(10, -(LD)g.range(2, 6)); for (int i = 0; i < L; ++i) b2[i] = (T)((LD)a[i] * (1 + f * g.real(-1, 1))); }
+			  LD e2 = 0; for (int i = 0; i < L; ++i) e2 += ((LD)a[i] - b2[i]) * ((LD)a[i] - b2[i]); if (near && !(e2 > 1e-30L)) continue;
+			  count("distance" + sfx); LD g1 = glm::distance(a, b2); if (!(fabsl(g1 - sqrtl(e2)) <= 8 * eps * sqrtl(e2))) fail("distance" + sfx, near ? "nearby points" : "relative", vs(a) + "," + vs(b2), str((double)sqrtl(e2)), str((double)g1));
+			  count("distance2" + sfx); LD g2 = glm::distance2(a, b2); if (!(fabsl(g2 - e2) <= 8 * eps * e2)) fail("distance2" + sfx, near ? "nearby points" : "relative", vs(a) + "," + vs(b2), str((double)e2), str((double)g2)); }
 			// reflect with unit N
 			if (bb > 0) { glm::vec<L, T> N = b; LD nb = sqrtl(bb); for (int i = 0; i < L; ++i) N[i] = (T)((LD)b[i] / nb); LD dn = ldot(N, a); count("reflect" + sfx); auto r = glm::reflect(a, N); bool ok = true;
 				for (int i = 0; i < L; ++i) if (!(fabsl((LD)r[i] - ((LD)a[i] - 2 * dn * (LD)N[i])) <= 32 * eps * (sqrtl(aa) + 1))) ok = false; if (!ok) fail("reflect" + sfx, "formula", vs(a) + " N=" + vs(N), "I-2(N.I)N", vs(r));
